@@ -217,11 +217,13 @@ class Driver:
             except Exception:
                 idx.append(RAISED)
         v["idx"] = idx
-        try:
-            t.get_block(n)
-            v["oob"] = 0
-        except Exception:
-            v["oob"] = RAISED   # the statement only says lookups of what is not there raise
+        v["oob"] = RAISED       # the statement only says lookups of what is not there raise
+        for k in (n, -1, -n):
+            try:
+                t.get_block(k) if k != -n else t[k]
+                v["oob"] = 0
+            except Exception:
+                pass
         try:
             bl = t.blocks
             v["blocks"] = [0 if b.type == BlockType.unusedSlot else self.block_uid(b) for b in bl]
@@ -276,7 +278,7 @@ class Driver:
             if self.turns % 3 != 0:
                 self.tdf, self.other = self.other, self.tdf
         t = self.tdf
-        ev = dict(op=kind, t=0, u=0, sz=0, fmt=0, c=0, cok=True, bad="none", cd=0, md=0, leak=False, what="", rv=NA)
+        ev = dict(op=kind, t=0, u=0, sz=0, fmt=0, c=0, cok=True, bad="none", cd=0, md=0, leak=False, swallow=False, what="", rv=NA)
         self.copy_leak = False
         call = None
         if kind in ("add", "replace", "set"):
@@ -341,7 +343,10 @@ class Driver:
                     t.__exit__(None, None, None)
                 else:
                     err = RuntimeError("boom")
-                    t.__exit__(RuntimeError, err, None)
+                    if t.__exit__(RuntimeError, err, None):
+                        # a truthy answer tells the with statement that the exception is dealt with:
+                        # errors raised inside the context (refused mutations among them) would vanish
+                        self.copy_leak = "swallow"
         else:
             reader = self._reader(op)
             ev["what"] = op["what"]
@@ -368,7 +373,8 @@ class Driver:
                 raise
             res = dict(ok=False, mro=[c.__name__ for c in type(x).__mro__])
         ev["res"] = res
-        ev["leak"] = bool(self.copy_leak)
+        ev["leak"] = bool(self.copy_leak) and self.copy_leak != "swallow"
+        ev["swallow"] = self.copy_leak == "swallow"
         ev["obs"] = self.observe()
         return ev
 
